@@ -214,10 +214,10 @@ Fixpoint enc (fl : flags) (fuel : nat) (h : heap) (seen : list id) (v : val) : o
    `enc_tmp` is the encoder one gets when the Action branch encodes TEMPORARY copies of these two
    dicts (to_dict() returning `.copy()`): the k-th temporary lives at identity `alloc k` and is
    freed right after it was encoded, so the allocator may hand the same identity out again.  With
-   an allocator that never reuses an identity during one encoding (`alloc_fresh`) the output is
+   an allocator that never reuses an identity during one encoding (`tmp_ids_fresh`) the output is
    restored correctly; with CPython's reuse a later temporary is taken for an earlier one and is
    written as a {"__type": "ref"} to it (Serial_examples: tmp_reuse_refuted). *)
-Definition alloc_fresh (alloc : nat -> id) (h : heap) : Prop :=
+Definition tmp_ids_fresh (alloc : nat -> id) (h : heap) : Prop :=
   (forall k, lookup h (alloc k) = None) /\ (forall k k', alloc k = alloc k' -> k = k').
 
 Fixpoint enc_tmp (alloc : nat -> id) (fl : flags) (fuel : nat) (h : heap) (st : list id * nat) (v : val)
